@@ -18,4 +18,4 @@ if [ -n "$DEMO" ]; then
 fi
 cd /verif && EVO_REPO="$WT" ./check "$P" --tier "${TIER:-quick}" 2>&1 | grep -v Initialized | grep "VIOLATION\|^OK\|HARNESS\|KNOWN" | cut -c1-220 | head -5
 echo "check_exit=${PIPESTATUS[0]}"
-# restore generated files of translator ties to the unchanged tree
+git -C /verif checkout -- coq/generated evidence   # restore what the mutated run rewrote
